@@ -373,6 +373,7 @@ pub fn gen_stream(rng: &mut Rng, len: usize, allow_eintr: bool) -> StreamSpec {
         hard_error_call: None,
         hard_error_kind: 0,
         seek_error: false,
+        hard_error_offset: None,
     }
 }
 
